@@ -67,7 +67,9 @@ reg("C16", level="proof", engine="E-TAB", technique=TECH_L0, design_ref="DESIGN.
     explanation="Version::diff is interpreted from MIR (with Version::cmp and is_prerelease as interpreted callees) on every "
                 "class of per-field orderings of (a.f, b.f, 0), prerelease-list valuations and build same/different, and "
                 "compared entry by entry with a transcription of node-semver 7.6.2 functions/diff.js; rows are paired for "
-                "symmetry; the Display arms of VersionDiff are interpreted and compared with npm's names.",
+                "symmetry; the Display arms of VersionDiff are interpreted and compared with npm's names. When the per-field "
+                "abstraction does not apply (fields compared across each other or with other literals) a witness search over "
+                "small joint valuations runs: a mismatch is reported, none found leaves the check inconclusive.",
     level_text="Proof over a finite abstraction: diff is loop-free and reads its inputs only through same-field comparisons, "
                "comparisons with the literal 0 and emptiness/order of the prerelease lists (enforced by the interpreter).",
     level_note="Trusted: rustc MIR, interpreter/models, the transcription of node-semver's diff().",
@@ -127,8 +129,10 @@ reg("C01", level="other", engine="E-TAB+E-GRAM+E-SET", design_ref="DESIGN.md §5
                 "logical_or(); (4) the AND-fold of one alternative; (5) token level: the range grammar is compiled to PEG-exact "
                 "automata and every comparator text of the npm grammar (primitive, bare partial, tilde, caret, hyphen, with "
                 "the loose spellings: leading zeros, v prefix, blanks after an operator, prerelease without hyphen), followed "
-                "by a delimiter, is consumed with exactly its own extent by a non-garbage alternative of simple(). NOT "
-                "decided: how arbitrary non-grammar text is cut into tokens (whole-text equivalence with npm's regex pipeline).",
+                "by a delimiter, is consumed with exactly its own extent by a non-garbage alternative of simple(), and "
+                "conversely every text those alternatives can consume is a comparator of node-semver's syntax ([v=\\s]* lead, "
+                "loose prerelease, `~ >` trim, hyphen with blanks on both sides of the dash). NOT decided: how arbitrary "
+                "non-grammar text is cut into tokens (whole-text equivalence with npm's regex pipeline).",
     level_text="Other (partial): exhaustive over the finite desugaring table and the structural grammar rules; the tokeniser's "
                "behaviour on arbitrary strings is not decided by this check.",
     level_note="Trusted: rustc MIR, interpreter/models, the transcription of node-semver's desugaring functions "
@@ -173,17 +177,20 @@ reg("C06", level="other", engine="E-FLOW+E-TAB+E-GRAM", design_ref="DESIGN.md §
     technique="panic-site inventory over MIR (Assert terminators, calls of panicking std functions) with one named discharge "
               "rule per site, the rules backed by decision tables, provenance tables and CFG/call-graph analyses",
     explanation="Partial claim. Every panic-capable construct in a crate body (overflow assertions, unwrap/expect, "
-                "panic_fmt of unreachable!/debug_assert!, str/slice indexing) is enumerated from MIR and must be discharged: "
-                "D-INV (unreachable! arms dead under the (Lower, Upper) shape, no abstract case reaches them), D-NEW, D-DIFF "
-                "(no row of the difference table unwraps None), D-NUM (every `+ 1` is applied to a parsed component), D-PTR / "
-                "D-PARTIAL / D-LEN (entry-point arithmetic), D-LOC (location(), conditional on offset provenance), D-PRE "
-                "(debug_assert on negative tuple components: precondition). Repetition combinators make progress; the call "
-                "graph is acyclic and every loop is driven by a collection iterator. NOT decided: the running-time clause; "
-                "panics inside winnow, miette or std.",
+                "panic_fmt of unreachable!/debug_assert!, str/slice indexing) is enumerated from MIR and must be discharged. "
+                "Discharge is by call-graph coverage of table families: each interpretation table (desugaring cells D-NUM — "
+                "BoundSet::new may answer None —, entry-point paths D-PTR/D-LEN, location() geometry D-LOC, the difference rows "
+                "D-DIFF, satisfies/Display shapes D-INV, Range::any D-NEW) has roots, a three-valued verdict and the crate bodies "
+                "its runs entered or stubbed; a site is discharged when its function is a root or a private function all of "
+                "whose crate callers are covered by clean families that did not stub it (dead private functions: D-DEAD). "
+                "D-PRE: debug_assert on negative tuple components (precondition). D-NUM-STORED / D-CONST: operand patterns. "
+                "Repetition combinators make progress; the call graph is acyclic and every loop is driven by a std iterator "
+                "whose instantiated type names no unbounded source. NOT decided: the running-time clause; panics inside "
+                "winnow, miette or std.",
     level_text="Other (partial): the inventory is complete for the crate's own MIR; a new panic-capable construct is a "
                "violation until a rule discharges it.",
-    level_note="Trusted: rustc MIR, interpreter/models, winnow raising ErrMode::Incomplete only for Partial streams, "
-               "frozen reasons for the sites of location(). Dependencies' internals are out of scope.",
+    level_note="Trusted: rustc MIR, interpreter/models, winnow raising ErrMode::Incomplete only for Partial streams. "
+               "Dependencies' internals are out of scope.",
     exhaustive=True, assumptions=["INV-NUM: components stored in a Range are <= MAX_SAFE_INTEGER + 1",
                                   "panics inside dependencies are not analysed", "running time is not analysed"])
 
